@@ -705,6 +705,17 @@ def gen_case(seed, profile='edit'):
                    ['q_annot', w], ['q_byrdf', 0, 1], ['rmvar', v], ['q_annot', w], ['q_byrdf', 0, 1], ['q_bycmeta', base[v][1]]]
             at = rng.randrange(len(ops) + 1) if rng.random() < 0.5 else 0
             ops[at:at] = pat
+    if profile == 'annot' and rng.random() < 0.35:
+        # an annotation of one variable whose OBJECT is the resource of another local variable (bqbiol:hasPart
+        # rdf:resource="#w_id"): removing the first variable removes its own annotations, never those of the other
+        with_id = [i for i, b in enumerate(base) if b[1] is not None]
+        if len(with_id) >= 2:
+            v, w = rng.sample(with_id, 2)
+            pat = [['triple', base[w][1], 0, 1], ['triple', base[w][1], 1, 2],
+                   ['triple', base[v][1], rng.randrange(2), 10 + LOCAL_IDS.index(base[w][1])],
+                   ['q_annot', w], ['rmeq', core_eq.get(v, 0)], ['rmvar', v], ['q_annot', w], ['q_byrdf', 0, 1], ['q_byrdf', 1, 2]]
+            at = rng.randrange(len(ops) + 1) if rng.random() < 0.5 else 0
+            ops[at:at] = pat
     # always end with the full set of queries
     for qn in queries:
         ops.append([qn])
